@@ -258,14 +258,14 @@ Proof.
     + wk_frame K.
   - destruct all; inversion H; subst; [apply WK_set_pc; [discriminate|]|apply WK_finish]; wk_frame K.
   - destruct (lk (th s k)); [discriminate|]. inversion H; subst. apply WK_set_pc; [discriminate|]. wk_frame K.
-  - destruct (tstate_eqb_spec (st (th s k)) SLEEPING) as [Hs|Hs]; inversion H; subst; (apply WK_set_pc; [discriminate|]); auto.
+  - destruct (tstate_eqb_spec (st (th s k)) SLEEPING) as [Hs|Hs]; [destruct (0 <? e)|]; simpl in H; inversion H; subst; (apply WK_set_pc; [discriminate|]); auto.
     apply WK_wake.
     + apply WF_updT; auto. apply keeps_wkerr.
     + rewrite th_set_wk_x. discriminate.
     + apply WK_set_wk; auto. discriminate.
   - destruct o; inversion H; subst; [apply WK_set_pc; [discriminate|]|apply WK_finish]; wk_frame K.
   - destruct (tstate_eqb _ READY && (err (th s k) =? 0)); inversion H; subst; [apply WK_set_pc; [discriminate|auto]|now apply WK_finish].
-  - inversion H; subst. apply WK_finish. wk_frame K.
+  - destruct (0 <? e); inversion H; subst; apply WK_finish; auto. wk_frame K.
 Qed.
 
 Lemma wm_idle_decide s v cnt : wk_mono s (idle_decide s v cnt).
